@@ -2,7 +2,7 @@
   SfProofs.AbsBridgeSteps — the bridge, part 4: the SEEK, WRITE, TRUNCATE and flag-command steps (relation and invariant
   kept, answer accepted), and the map from the operations / answers of the concrete model to script / transcript lines.
 -/
-import SfProofs.AbsBridgeReadStep
+import SfProofs.AbsBridgeLossless
 import SfProofs.AbsCompleteW
 namespace Sf.AbsBridge
 open Sf
@@ -30,43 +30,30 @@ def convCmd (cmd : Nat) : Prop := cmd = 0x1013 ∨ cmd = 0x1012 ∨ cmd = 0x10C0
 
 instance (cmd : Nat) : Decidable (convCmd cmd) := by unfold convCmd; infer_instance
 
-/-- the lines the predicate judges: a write line supplies the whole requested region (the harness does); no
-    conversion-setting command; SFC_FILE_TRUNCATE with −1 only where it is refused before the seek (on a descriptor route
-    `sf_seek`'s −1 is taken for success and −1 becomes the frame count: invalid-argument territory, property C09) -/
-def Judged (h : H) : Sf.Op → Prop
-  | .write _ _ fc n data => (reqLen h fc n).toNat ≤ data.length
+/-- the lines the predicate judges: a write line supplies the whole requested region (the harness does), and where the
+    geometry CLAIMS the caller type lossless (`g.lossless ty`, C01's side condition) the values handed over are values of
+    that type and lossless for the encoding; no conversion-setting command; SFC_FILE_TRUNCATE with −1 only where it is
+    refused before the seek (on a descriptor route `sf_seek`'s −1 is taken for success and −1 becomes the frame count:
+    invalid-argument territory, property C09) -/
+def Judged (g : Abs.Geom) (h : H) : Sf.Op → Prop
+  | .write _ ty fc n data => (reqLen h fc n).toNat ≤ data.length ∧
+      (g.lossless ty = true → h.enc.wf ∧ ∀ v ∈ data.take (reqLen h fc n).toNat, ty.inRange v ∧ lossless h.enc ty v)
   | .cmdFlag _ cmd _ => ¬ convCmd cmd
   | .truncate _ n => n = -1 → h.mode = .r ∨ h.canTruncate = false
   | _ => True
 
-theorem Judged_congr {h h' : H} (c : SameCfg h h') (op : Sf.Op) (hj : Judged h op) : Judged h' op := by
+theorem Judged_congr {g : Abs.Geom} {h h' : H} (c : SameCfg h h') (op : Sf.Op) (hj : Judged g h op) : Judged g h' op := by
   cases op <;> simp only [Judged] at hj ⊢
-  · unfold reqLen at hj ⊢; rw [c.ch]; exact hj
+  · unfold reqLen at hj ⊢; rw [c.ch, c.enc]; exact hj
   · exact hj
   · rw [c.mode, c.canTruncate]; exact hj
 
 theorem GeomFor_congr {g : Abs.Geom} {h h' : H} (c : SameCfg h h') (gf : GeomFor g h) : GeomFor g h' :=
-  ⟨by rw [c.ch]; exact gf.ch, gf.seekable, by rw [c.canTruncate]; exact gf.canTrunc, gf.ioMayFail, gf.tailClean,
-   gf.lossless, gf.holeZero⟩
+  ⟨by rw [c.ch]; exact gf.ch, gf.seekable, by rw [c.canTruncate]; exact gf.canTrunc, gf.ioMayFail, gf.tailClean, gf.holeZero⟩
 
 /-- what one step of the bridge delivers -/
 def StepGoal (g : Abs.Geom) (st : Abs.St) (aop : Abs.Op) (ao : Abs.Out) (h' : H) (s' : Store) : Prop :=
   ∃ st', Abs.check g st aop ao = .ok st' ∧ Sim h' s' st' ∧ BInv h' s'
-
-/-! ## the data region -/
-
-theorem absRef_congr_region (h h' : H) (s s' : Store) (ty : Ty) (he : h'.enc = h.enc) (hc : h'.conv = h.conv)
-    (hD : dataRegion h' s' = dataRegion h s) : absRef h' s' ty = absRef h s ty := by
-  unfold absRef; rw [he, hc, hD]
-
-/-- a read/write handle whose abstract frames are the `bw`-groups of `X` has the data region `X` -/
-theorem dataRegion_of_frames (h' : H) (s' : Store) (inv' : RwInv h' s') (X : List Byte) (k : Nat)
-    (hX : X.length = k * h'.bw) (habs : (absOf h' s').frames = groups h'.bw X) : dataRegion h' s' = X := by
-  obtain ⟨R, W, F, hdr, D, v⟩ := inv'
-  have hbw := v.bw_pos
-  rw [v.abs] at habs
-  simp only at habs
-  rw [v.dataRegion, ← groups_join _ hbw F D v.dlen, habs, groups_join _ hbw k X hX]
 
 /-! ## seek -/
 
@@ -145,8 +132,9 @@ theorem write_invalid_goal (g : Abs.Geom) (h : H) (s : Store) (st : Abs.St) (ty 
 theorem absMode_r {m : Sf.Mode} (h : m = .r) : absMode m = .r := by subst h; rfl
 theorem absMode_ne_r {m : Sf.Mode} (h : m ≠ .r) : absMode m ≠ .r := by cases m <;> simp_all [absMode]
 
-theorem write_step (g : Abs.Geom) (h : H) (s : Store) (st : Abs.St) (ty : Ty) (fc : Bool) (n : Int) (data : List Int)
-    (gf : GeomFor g h) (bi : BInv h s) (sim : Sim h s st) (hd : (reqLen h fc n).toNat ≤ data.length) :
+theorem write_step (hwid : WidenExact) (g : Abs.Geom) (h : H) (s : Store) (st : Abs.St) (ty : Ty) (fc : Bool) (n : Int) (data : List Int)
+    (gf : GeomFor g h) (bi : BInv h s) (sim : Sim h s st) (hd : (reqLen h fc n).toNat ≤ data.length)
+    (hloss : g.lossless ty = true → h.enc.wf ∧ ∀ v ∈ data.take (reqLen h fc n).toNat, ty.inRange v ∧ lossless h.enc ty v) :
     StepGoal g st (.write ty fc n (encBuf ty data)) (outOf (stepWrite h s ty fc n data).2.2)
       (stepWrite h s ty fc n data).1 (stepWrite h s ty fc n data).2.1 := by
   have hi := bi.hinv
@@ -184,8 +172,29 @@ theorem write_step (g : Abs.Geom) (h : H) (s : Store) (st : Abs.St) (ty : Ty) (f
     have := sim.frames; have := sim.wpos hr; omega
   · simp only [Abs.afterWrite]; rw [c6]; exact sim.rpos (by rw [← c8]; exact hm)
   · simp only [Abs.afterWrite]; rw [c4]; have := sim.wpos hr; omega
-  · simp only [Abs.afterWrite, gf.lossless, Bool.false_and, Bool.and_false] at hv
-    exact absurd hv (by simp)
+  · -- the stream is still claimed after the write: lossless type, known before, no hole — it IS the decoded data region
+    simp only [Abs.afterWrite, gf.holeZero, Bool.or_false, Bool.and_eq_true, decide_eq_true_eq] at hv ⊢
+    obtain ⟨htt, ⟨hlo, hvt⟩, hle⟩ := hv
+    subst htt
+    simp only [if_true]
+    have hmrw : h.mode = .rw := by
+      rcases mode_cases h.mode with hx | hx | hx
+      · exact absurd hx hr
+      · rw [c8] at hm; exact absurd hx hm
+      · exact hx
+    have inv := bi.rw hmrw
+    obtain ⟨hwf, hvals⟩ := hloss hlo
+    have htl : (data.take (reqLen h fc n).toNat).length = m * h.ch := by
+      rw [List.length_take, hreq, Int.toNat_natCast]; omega
+    have hWF : h.wpos ≤ h.frames := by have := sim.frames; have := sim.wpos hr; omega
+    have key := write_ref_lossless hwid h s inv t fc (data.take (reqLen h fc n).toNat) m hm0 htl hwf
+      (fun v hv => (hvals v hv).1) (fun v hv => (hvals v hv).2) hWF
+    simp only [ROp.toOp, stepAny, htl, Nat.mul_div_cancel _ hch, ← hnm] at key
+    rw [← write_take_self] at key
+    rw [key, sim.ref (by rw [hmrw]; decide) t hvt]
+    have hwn : st.wpos = h.wpos.toNat := by have := sim.wpos hr; omega
+    have hcpf : g.cpf t = h.ch * Abs.cells t := by unfold Abs.Geom.cpf; rw [gf.ch]
+    rw [hwn, hcpf, gf.ch, encBuf_extract_zero, hreq, Int.toNat_natCast]
   · rw [c5, c4]; have := bi.frames_nn; omega
   · -- read/write handle: the RDWR refinement step keeps `RwInv`
     have hmrw : h.mode = .rw := by rw [← c8]; exact hm
